@@ -8,6 +8,7 @@ import (
 	"sort"
 	"time"
 
+	"f1verif/internal/an"
 	"f1verif/internal/core"
 )
 
@@ -36,6 +37,7 @@ func Get(id string) PropFunc {
 		return nil
 	}
 	return func(c *core.Ctx, r *core.Report) {
+		an.SetProgram(c)
 		f(c, r)
 		for _, e := range extra[id] {
 			e(c, r)
